@@ -7,5 +7,7 @@ CONSTANTS
   MaxCore = 18
   MaxP2J = 4
   MaxDim4 = 3
+  MaxRank4 = 3
+  MaxBadSize = 36
 POSTCONDITION TraceAccepted
 CHECK_DEADLOCK FALSE
